@@ -494,7 +494,12 @@ func runBlock(c BlockCase) (res common.Result) {
 		if prev != nil && dropsBetween > 0 {
 			afterDrop = true
 			want := verifier.LogRange{Start: prev.Range.End, End: r.Range.Start}
-			if r.SkippedRange == nil || *r.SkippedRange != want {
+			if want.Start >= want.End {
+				// the dropped checkpoint's entries were truncated away and re-written: the
+				// next report starts where the previous one ended, so no index was skipped
+				// and there is no range to name
+				res.Classes = append(res.Classes, "dropped-range-truncated-away")
+			} else if r.SkippedRange == nil || *r.SkippedRange != want {
 				res.Fail = common.Failf("skipped-range-wrong", "%d checkpoint(s) dropped between delivered %v and %v: SkippedRange=%v, want %v", dropsBetween, prev.Range, r.Range, r.SkippedRange, want)
 				return
 			}
